@@ -4,3 +4,6 @@ package fp
 
 // verifSpawn is a no-op unless the package is built with the verif tag.
 func verifSpawn(r Runnable) bool { return false }
+
+// verifYield is a no-op unless the package is built with the verif tag.
+func verifYield(op string) {}
